@@ -247,9 +247,59 @@ let listing_fn (forms : expr list) : string =
     else "NOTF2"
   | _ -> "NOTF2"
 
+(* scope=1: replay the scope events of a real run on the extracted machine coq/Model/ScopeImpl.v and
+   print, at every "d" event, the lookup structure in the format of harness/cmd/c03scope:
+   L:<live scopes, top first>|C:<captured stack of the current function and of its parents> *)
+let replay_scope (evs : string list) : string =
+  let st = ref init_istateF in
+  let tbl : (int, fnF) Hashtbl.t = Hashtbl.create 16 in
+  Hashtbl.replace tbl 0 !st.curF;
+  let next = ref 1 in
+  let outs = ref [] in
+  let dump () =
+    let num : (int, int) Hashtbl.t = Hashtbl.create 16 in
+    let n i = (match Hashtbl.find_opt num i with Some k -> k | None -> let k = Hashtbl.length num + 1 in Hashtbl.replace num i k; k) in
+    let sc (s : scopeF) =
+      let base = string_of_int (n (int_of_nat s.sf_id)) in
+      if s.sf_fun then base ^ "f{" ^ String.concat "." (List.map (fun t -> string_of_int (n (int_of_nat t))) s.sf_tmpl) ^ "}" else base in
+    let lst l = String.concat "." (List.rev (List.fold_left (fun acc x -> sc x :: acc) [] l)) in
+    let l = "L:" ^ lst !st.liveF in
+    let rec chain f = match f with
+      | GMain cl -> ["[" ^ lst cl ^ "]"]
+      | GSub (_, cl, par) ->
+        let here = (match cl with Some c -> "[" ^ lst c ^ "]" | None -> "-") in   (* numbered before the parents *)
+        let rest = chain par in here :: rest in
+    l ^ "|C:" ^ String.concat ";" (chain !st.curF) in
+  let num_of s = int_of_string (String.sub s 1 (String.length s - 1)) in
+  List.iter (fun e ->
+    match e.[0] with
+    | 'p' -> let id = nat_of_int !next in incr next;
+      if String.length e >= 2 && e.[1] = '1' then begin
+        let ts = if String.length e > 3 then String.split_on_char '.' (String.sub e 3 (String.length e - 3)) else [] in
+        let ts = List.filter (fun x -> x <> "") ts in
+        st := add_func_scopeF id (List.map (fun t -> nat_of_int (int_of_string t)) ts) !st
+      end else st := add_scopeF id !st
+    | 'o' -> st := pop_scopesF (nat_of_int (num_of e)) !st
+    | 'c' -> Hashtbl.replace tbl (num_of e) (create_closureF !st)
+    | 's' ->
+      (match String.split_on_char ':' (String.sub e 1 (String.length e - 1)) with
+       | [id; par] ->
+         st := set_curF (Hashtbl.find tbl (int_of_string par)) !st;
+         let f = pseudoF !st in Hashtbl.replace tbl (int_of_string id) f; st := set_curF f !st
+       | _ -> failwith "bad s event")
+    | 'u' -> st := set_curF (Hashtbl.find tbl (num_of e)) !st
+    | 'd' -> outs := dump () :: !outs
+    | _ -> failwith ("bad scope event " ^ e)) evs;
+  String.concat " " (List.rev !outs)
+
 let () =
   iter_lines (fun line ->
     match split_tab line with
+    | id :: body :: _ when String.length body >= 7 && String.sub body 0 7 = "scope=1" ->
+      (try
+        let evs = List.filter (fun x -> x <> "") (String.split_on_char ' ' (String.sub body 7 (String.length body - 7))) in
+        Printf.printf "%s\t%s\t-\n%!" id (replay_scope evs)
+      with Failure m -> Printf.printf "%s\tBADINPUT:%s\t-\n%!" id m | Not_found -> Printf.printf "%s\tBADINPUT:unknown function\t-\n%!" id)
     | id :: body :: _ ->
       (try
         let fuel = ref 300 and failat = ref 0 and bytecode = ref false and f1mode = ref false and fnmode = ref false in
